@@ -14,8 +14,8 @@ import (
 )
 
 func init() {
-	props["C12"] = &prop{gen: genC12, eval: evalHelper}
-	props["C14"] = &prop{gen: genC14, eval: evalHelper, timeout: 3 * time.Second}
+	props["C12"] = &prop{gen: genC12, eval: evalHelper, pure: true}
+	props["C14"] = &prop{gen: genC14, eval: evalHelper, timeout: 3 * time.Second, pure: true}
 }
 
 func descOf(e *helperEntry) string {
